@@ -4,6 +4,7 @@ package transforms32
 
 import (
 	"image"
+	"unsafe"
 
 	cpu "github.com/klauspost/cpuid/v2"
 )
@@ -24,6 +25,12 @@ func AsmYCbCrToGray(c *image.YCbCr, pixels []float32) {
 	w, h := c.Rect.Dx(), c.Rect.Dy()
 	if c.SubsampleRatio != image.YCbCrSubsampleRatio444 || c.Rect.Min != (image.Point{}) ||
 		c.YStride != w || w%8 != 0 || len(pixels) < w*h {
+		yCbCrToGrayAlt(c, pixels)
+		return
+	}
+	// The assembly stores eight results at a time with an aligned move: a destination that
+	// does not start on a 32-byte boundary (a sub-slice of the caller's buffer) faults.
+	if len(pixels) == 0 || uintptr(unsafe.Pointer(&pixels[0]))%32 != 0 {
 		yCbCrToGrayAlt(c, pixels)
 		return
 	}
